@@ -39,11 +39,11 @@ def fill(claim, not_yet):
           ENGINE_NOTE + " The driver invariant is proved for the plain class only (other joins, OR-splits, suspends, redeliveries / crashes / sweeps are explored by the monitors; false with jumps: known findings F4 / F28).",
           "DESIGN.md §9 C05")
     claim("C06", "Lean 4 proof over translated transition table + run-level invariant: every audit row legal on every schedule/crash/sweep (jump-free)",
-          "Table facts are theorems about a table regenerated from models/status.py on every run. Engine: every handler except JumpToStage writes only legal transitions in ANY state (handler_writes_legal), hence along every run - any delivery order, redelivery, kill after any commit, sweep, cancel, signal - every durable status change is legal and completed statuses are final for workflows without jumps (every_write_legal_partial, complete_is_final_partial). Jump writes: guarded after fix F34; the skip of bypassed stages is not proved. Trigger audit of every explored trace is checked against the source table.",
+          "Table facts are theorems about a table regenerated from models/status.py on every run. Engine: every handler except JumpToStage writes only legal transitions in ANY state (handler_writes_legal), hence along every run - any delivery order, redelivery, kill after any commit, sweep, cancel, signal - every durable status change is legal and completed statuses are final for workflows without jumps (every_write_legal_partial, complete_is_final_partial). Jump writes: guarded after fix F34; the skip of bypassed stages is not proved. Trigger audit of every explored trace is checked against the source table, and so is the audit of every Mode B engine-pair schedule (two handlers on one stage at every legal DB-call point: join tracking, signal vs result, CancelStage vs CompleteTask, CancelStage vs the RunTask result commit; monitored, not proved).",
           ENGINE_NOTE, "DESIGN.md §9 C06")
     claim("C07", "Lean 4 proof on the optimistic-locking model + SQL shapes regenerated from source; interleaving differential on the real store",
           "At most one write per base version succeeds; the final content is the fold of the successful modifications in commit order (both store_stage variants are all-or-nothing since fix F33); retry linearizes; upsert_task is a CAS. Also with every read call split into its SQL statements and other clients' committed writes between them (split_read_no_lost_update, split_read_write_fails_or_keeps): the version comes from the same statement as the fields it guards, so a write after a torn read fails its CAS or loses nothing; the variant that re-reads the version in a later statement provably loses an update (reread_version_loses_update). Every stage UPDATE in both store_stage implementations has version = :version in its WHERE and bumps the version, and no read-path function assigns or separately selects the version (decide over tables generated from the source).",
-          "Writers interleave at store-API-call granularity (SQLite single writer trusted); reads are split at every SQL statement of the seven read paths (retrieve_stage, retrieve, get_upstream/downstream/synthetic_stages, upstream / synthetic objects of retrieve_stage) with a complete committed write in between, on the real store; engine pairs (two upstream completions on one join stage, persistent signal vs RUNNING / SUCCEEDED task result, CancelStage vs CompleteTask) at every legal DB-call point under Mode B with row-history monitors and a store-call-log correspondence to the CasRow model. Auto-commit store_stage half-applied write was finding F33 (fixed).",
+          "Writers interleave at store-API-call granularity (SQLite single writer trusted); reads are split at every SQL statement of the seven read paths (retrieve_stage, retrieve, get_upstream/downstream/synthetic_stages, upstream / synthetic objects of retrieve_stage) with a complete committed write in between, on the real store; engine pairs (two upstream completions on one join stage, persistent signal vs RUNNING / SUCCEEDED task result, CancelStage vs CompleteTask, CancelStage vs the RunTask result commit, and StartStage's claim -> plan window vs a sibling's join tracking / a second persistent signal on a context that already holds the key) at every legal DB-call point under Mode B with row-history monitors and a store-call-log correspondence to the CasRow model. Auto-commit store_stage half-applied write was finding F33 (fixed).",
           "DESIGN.md §9 C07")
     claim("C08", "Lean 4 proof on the queue model (conservation, claim exclusivity, DLQ at limit) + per-op differential on the real SqliteQueue incl. crash points",
           "After any sequence of pushes, split/atomic polls, ack, reschedule, extend, expire, mature, DLQ moves, sweeps, replays and crashes at any commit, every pushed message is in exactly one of queue / DLQ / acknowledged; a claimed (id, version) is never claimed again; rows at the limit are never delivered and are moved unchanged; replay preserves the payload.",
